@@ -123,6 +123,7 @@ PROPS["C14"] = dict(
         enum("TreeEnum", "TestTreeEnum"),
         rapid("Concurrent", "TestConcurrent", 4000, 100000, flaky_ok=True),
         rapid("Docs", "TestDocs", 6000, 200000),
+        rapid("Inline", "TestInline", 20000, 600000),
         # what a frame contains is counted, not timed: a malformed or leaking frame is reported even when the schedule that
         # produced it (items built concurrently) does not recur in the confirmation replay
         rapid("Frames", "TestFrames", 800, 40000, shards=(8, 16), config_toml=_NET, timeout=dict(quick=600, thorough=3000),
